@@ -131,11 +131,14 @@ pub fn run_direct(rep: &mut Report, n: u64) {
 
 pub fn run_live(rep: &mut Report, targets: u64, per_target: u64) {
     let mut rng = Rng::new(rep.seed.wrapping_mul(505_051));
-    for _ in 0..targets {
+    for ti in 0..targets {
         let mut b = Builder::new();
         let ex = b.anon(2, 4, 5, Fill::Pattern);
         let exa = b.spec.regions[ex].addr;
-        let n = rng.range(1, 4) as usize;
+        // every fourth target has more threads than a size limit keeps at full length; its dumps
+        // carry a limit and often blame a thread late in the list
+        let many = ti % 4 == 3;
+        let n = if many { 26 } else { rng.range(1, 4) as usize };
         for _ in 0..n {
             let mode = if rng.chance(1, 3) { Mode::Spin } else { Mode::Pause };
             b.sentinel(&mut rng, mode, &StackShape::default(), None, None);
@@ -162,8 +165,18 @@ pub fn run_live(rep: &mut Report, targets: u64, per_target: u64) {
             } else {
                 (t.pid + 100_000 + rng.below(1000) as i32, false)
             };
-            let with_ctx = k % 3 != 2;
+            let (blamed, present) = if many && which >= 3 && which < 8 && k % 2 == 0 {
+                // one of the last threads in the list
+                (t.manifest.tids[b.sentinels[n - 1 - rng.usize_below(4)].index], true)
+            } else {
+                (blamed, present)
+            };
+            let with_ctx = if many { k % 4 == 1 } else { k % 3 != 2 };
             let mut o = DumpOpts::new(t.pid, blamed);
+            if many {
+                o.size_limit = Some(*rng.pick(&[0u64, 1 << 17, 1 << 40]));
+                rep.count("live_dumps_many_threads_with_size_limit", 1);
+            }
             if with_ctx {
                 let s = &b.sentinels[rng.usize_below(n)];
                 let rsp = if rng.chance(3, 4) { s.stack_base + rng.below(s.stack_len) } else { rng.next() >> 18 };
